@@ -394,7 +394,8 @@ CHECKS = {'C01': {'level': 'exploration',
                  'of UpsertKey (point reads by key) in both modes; in the free-parallel mode a worker panic or workers that do not come back within '
                  '30 s are reported | since round 5 two more reader styles: several txn.QueryAt point reads inside ONE transaction, and '
                  'With(all).WithUnion(odd, even) over two indexes of one column that partition the rows (in the free-parallel part the union must '
-                 'always select all rows: no row is ever deleted there)',
+                 'always select all rows: no row is ever deleted there) | since round 10 the generated writers also write in accessor style: a '
+                 'QueryAt that only positions the cursor, then stores or merges through txn.Int/txn.Uint64 accessors after it returned',
          'assumptions': ["mode 1 decides by the invariant, never by timing: a slow machine can only make a reader count as 'blocked' (weaker), not "
                          'produce an alarm',
                          'rows whose three columns are all absent are not judged (deleted after the reader selected them, or an in-flight '
